@@ -490,6 +490,19 @@ def real_apply(C, w, op, has_e):
     return None
 
 
+def first_only(C, before, kid):
+    """Deleted flags if update_document removed, for every unique field, only
+    the first live committed document carrying the value."""
+    out = [bool(d[3]) for d in before]
+    for fi in range(len(C.ufields)):
+        v = C.kids[kid][fi]
+        for n, d in enumerate(before):
+            if not d[3] and C.kids[d[0]][fi] == v:
+                out[n] = True
+                break
+    return out
+
+
 class Result(object):
     __slots__ = ("problems", "post", "live", "txn", "notes")
 
@@ -518,6 +531,7 @@ def run_txn(W, txn, pre, checks=True, lenient=False):
     def do_ops(w):
         holder["w"] = w
         for op in ops:
+            before = [list(d) for d in m.docs]
             exp, op2 = m.apply(op)
             eff.append(op2)
             try:
@@ -530,12 +544,17 @@ def run_txn(W, txn, pre, checks=True, lenient=False):
                 # the writer's own view of the deletions (documented low-level
                 # IndexWriter.is_deleted) after every op; the model's docs are
                 # aligned with the global doc numbers of the state before
+                real = [bool(w.is_deleted(n)) for n in range(len(m.docs))]
                 for n, d in enumerate(m.docs):
-                    rd = bool(w.is_deleted(n))
-                    if rd != bool(d[3]):
-                        res.problems.append(("writer.is_deleted", "not-deleted" if d[3] else "wrongly-deleted",
+                    if real[n] != bool(d[3]):
+                        kind = "not-deleted" if d[3] else "wrongly-deleted"
+                        if op2[0] == "upd" and real == first_only(C, before, op2[1]):
+                            # exactly the first live document per unique field
+                            # was deleted although several carry the value
+                            kind = "only-first-duplicate-deleted"
+                        res.problems.append(("writer.is_deleted", kind,
                                              "after %r doc %d %r: writer.is_deleted=%r, model deleted=%r"
-                                             % (op2, n, tuple(d[:3]), rd, bool(d[3]))))
+                                             % (op2, n, tuple(d[:3]), real[n], bool(d[3]))))
                         raise OpFailed()
             if exp is not None:
                 if exp >= 2:
@@ -912,7 +931,14 @@ def ops_alpha(C, key, alpha):
         if livedocs:
             ops.append(ddoc(livedocs[-1][0]))
     elif alpha == "slite":
-        ops += [["add", 0, 0], ["upd", 0, 1], ["dtxt", 1]]
+        if C.name == "two":
+            ops += [["upd", 0, 0], ["upd", 2, 2], ["dtxt", 1]]
+        else:
+            ops += [["add", 0, 0], ["upd", 0, 1], ["dtxt", 1]]
+    elif alpha == "tri":
+        ops += [["add", 0, 0], ["upd", 0, 1], ["upd", 1, 2], ["dkey", 0], ["dtxt", 1]]
+        if livedocs:
+            ops.append(ddoc(livedocs[-1][0]))
     else:
         raise ValueError(alpha)
     return ops
@@ -1210,9 +1236,7 @@ def check_merged(cd, C, mv, live, acc):
         if res.live != live:
             raise core.HarnessError("model of merged history differs")
         p = check_reads(W2.index(), C, live, discipline=upd_only(mv))
-        if p:
-            return ("merged-history:" + p[0], p[1], "merged variant: " + p[2])
-        return None
+        return p
     finally:
         W2.close()
 
@@ -1363,6 +1387,9 @@ E4S = ["nomerge", "optimize", "cancel", "raise"]
 
 
 def plans(tier, seed):
+    """The declared space.  A plan = configuration + start state (root
+    history) + one list of blocks per BFS level; a block = alphabet x number
+    of ops per transaction x endings.  Everything inside is enumerated."""
     def cfg(name, storage="ram", ixmode="created", compound=True):
         return {"name": name, "seed": seed, "storage": storage, "ixmode": ixmode, "compound": compound}
 
@@ -1373,64 +1400,98 @@ def plans(tier, seed):
         if ix:
             b["ix"] = True
         return b
+    MRG = ["default", "optimize", "cancel"]
+    UND = B("undel", ends=["nomerge", "cancel"])
+    file_cfg = cfg("id", storage="file", ixmode="reopen")
+    loose_cfg = cfg("id", storage="file_nommap", ixmode="created", compound=False)
     P = []
-    q = tier == "quick"
-    # wide and shallow: the full alphabet, 0-2 ops per transaction, depth 2
+    if tier == "quick":
+        # wide and shallow: the full alphabet, 0-2 ops per transaction, depth 2
+        P.append({"id": "id/ram/wide", "cfg": cfg("id"), "root": [], "merged": True, "levels": [
+            [B("full", [0, 1, 2], E6, ix=True)],
+            [B("full", [0, 1], E5, ix=True), B("lite", [2], E3), UND]]})
+        # narrow and deep
+        P.append({"id": "id/ram/deep", "cfg": cfg("id"), "root": [], "merged": True, "levels": [
+            [B("core", [0, 1, 2], E5)],
+            [B("core", [0, 1], E5)],
+            [B("lite", [0, 1], E3)]]})
+        # from a non-initial state with 5 segments (default commits merge)
+        P.append({"id": "id/ram/5seg", "cfg": cfg("id", ixmode="reopen"), "root": root5(), "levels": [
+            [B("full", [0, 1], E6, ix=True), B("lite", [2], MRG)],
+            [B("lite", [0, 1], E5)]]})
+        P.append({"id": "num/ram/deep", "cfg": cfg("num"), "root": [], "levels": [
+            [B("full", [0, 1], E6, ix=True), B("core", [2], E3)],
+            [B("core", [0, 1], E5)],
+            [B("lite", [0, 1], E3)]]})
+        P.append({"id": "two/ram/deep", "cfg": cfg("two"), "root": [], "levels": [
+            [B("full", [0, 1, 2], E5, ix=True)],
+            [B("core", [0, 1], E5)],
+            [B("lite", [0, 1], E3)]]})
+        P.append({"id": "two/ram/5seg", "cfg": cfg("two", ixmode="reopen"), "root": root5_two(), "levels": [
+            [B("full", [0, 1], E5, ix=True)],
+            [B("lite", [0, 1], MRG)]]})
+        slevel = [B("schema", ends=E4S), B("slite", [0, 1], E2)]
+        P.append({"id": "id/ram/schema/created", "cfg": cfg("id"), "root": [],
+                  "recheck_reopened": True, "levels": [slevel] * 4})
+        P.append({"id": "id/ram/schema/reopen", "cfg": cfg("id", ixmode="reopen"), "root": [],
+                  "levels": [slevel] * 3})
+        P.append({"id": "id/file/deep", "cfg": file_cfg, "root": [], "image": True, "levels": [
+            [B("core", [0, 1], E5), B("lite", [2], E3)],
+            [B("lite", [0, 1], E5)],
+            [B("lite", [0, 1], E3)]]})
+        P.append({"id": "id/file_nommap_loose/deep", "cfg": loose_cfg, "root": [], "image": True, "levels": [
+            [B("core", [0, 1], E5)],
+            [B("lite", [0, 1], E5)],
+            [B("lite", [0, 1], E3)]]})
+        return P
+    # ---- thorough ----------------------------------------------------------
     P.append({"id": "id/ram/wide", "cfg": cfg("id"), "root": [], "merged": True, "levels": [
-        [B("full", [0, 1, 2], E6, ix=True)] + ([] if q else [B("core", [3], E3)]),
-        [B("full", [0, 1], E5, ix=True), B("lite" if q else "core", [2], E3),
-         B("undel", ends=["nomerge", "cancel"])]]})
-    # narrow and deep
+        [B("full", [0, 1, 2], E6, ix=True)],
+        [B("full", [0, 1], E6, ix=True), B("lite", [2], E3), B("tri", [3], E2), UND]]})
     P.append({"id": "id/ram/deep", "cfg": cfg("id"), "root": [], "merged": True, "levels": [
         [B("core", [0, 1, 2], E5)],
-        [B("core", [0, 1], E5)] + ([] if q else [B("lite", [2], E3)]),
-        [B("lite", [0, 1], E3)] if q else [B("core", [0, 1], E5)]] +
-        ([] if q else [[B("lite", [0, 1], E3)]])})
-    # from a non-initial state with 5 segments (default commits merge)
-    P.append({"id": "id/ram/5seg", "cfg": cfg("id", ixmode="reopen"), "root": root5(), "levels": [
-        [B("full", [0, 1], E6, ix=True), B("lite" if q else "core", [2], ["default", "optimize", "cancel"])],
-        [B("lite", [0, 1], E5)] if q else [B("core", [0, 1], E5)]] +
-        ([] if q else [[B("lite", [0, 1], ["default", "optimize", "cancel"])]])})
-    P.append({"id": "num/ram/deep", "cfg": cfg("num"), "root": [], "levels": [
-        [B("full", [0, 1], E6, ix=True), B("core", [2], E3)],
-        [B("core", [0, 1], E5)],
-        [B("lite", [0, 1], E3)] if q else [B("core", [0, 1], E5)]] +
-        ([] if q else [[B("lite", [0, 1], E3)]])})
-    if not q:
-        P.append({"id": "num/ram/5seg", "cfg": cfg("num", ixmode="reopen"), "root": root5(), "levels": [
-            [B("full", [0, 1], E6, ix=True)],
-            [B("core", [0, 1], E5)]]})
-    P.append({"id": "two/ram/deep", "cfg": cfg("two"), "root": [], "levels": [
-        [B("full", [0, 1, 2], E5 if q else E6, ix=True)],
-        [B("core" if q else "full", [0, 1], E5)],
-        [B("lite", [0, 1], E3)] if q else [B("core", [0, 1], E5)]] +
-        ([] if q else [[B("lite", [0, 1], E3)]])})
-    P.append({"id": "two/ram/5seg", "cfg": cfg("two", ixmode="reopen"), "root": root5_two(), "levels": [
-        [B("full", [0, 1], E5, ix=True)] + ([] if q else [B("core", [2], ["default", "optimize", "cancel"])]),
-        [B("lite", [0, 1], ["default", "optimize", "cancel"])] if q else [B("core", [0, 1], E5)]]})
-    # schema transactions
-    slevel = [B("schema", ends=E4S if q else E5), B("slite", [0, 1], E2 if q else E3)]
-    P.append({"id": "id/ram/schema/created", "cfg": cfg("id", ixmode="created"), "root": [],
-              "recheck_reopened": True, "levels": [slevel] * (4 if q else 5)})
-    P.append({"id": "id/ram/schema/reopen", "cfg": cfg("id", ixmode="reopen"), "root": [],
-              "levels": [slevel] * (3 if q else 4)})
-    # file storage
-    P.append({"id": "id/file/deep", "cfg": cfg("id", storage="file", ixmode="reopen"), "root": [],
-              "image": True, "levels": [
-        [B("core", [0, 1], E5), B("lite", [2], E3)] if q else [B("core", [0, 1, 2], E5)],
-        [B("lite", [0, 1], E5)] if q else [B("core", [0, 1], E5)],
-        [B("lite", [0, 1], E3)]] + ([] if q else [[B("lite", [0, 1], E3)]])})
-    P.append({"id": "id/file_nommap_loose/deep",
-              "cfg": cfg("id", storage="file_nommap", ixmode="created", compound=False), "root": [],
-              "image": True, "levels": [
-        [B("core", [0, 1], E5)] + ([] if q else [B("lite", [2], E3)]),
+        [B("core", [0, 1], E5), B("lite", [2], E3)],
         [B("lite", [0, 1], E5)],
-        [B("lite", [0, 1], E3)]] + ([] if q else [[B("lite", [0, 1], E3)]])})
-    if not q:
-        P.append({"id": "two/file/5seg", "cfg": cfg("two", storage="file", ixmode="created"),
-                  "root": root5_two(), "image": True, "levels": [
-            [B("core", [0, 1], E5)],
-            [B("lite", [0, 1], E5)]]})
+        [B("slite", [0, 1], E2)]]})
+    P.append({"id": "id/ram/5seg", "cfg": cfg("id", ixmode="reopen"), "root": root5(), "levels": [
+        [B("full", [0, 1], E6, ix=True), B("core", [2], MRG)],
+        [B("core", [0, 1], E5)],
+        [B("slite", [0, 1], MRG)]]})
+    P.append({"id": "num/ram/deep", "cfg": cfg("num"), "root": [], "levels": [
+        [B("full", [0, 1, 2], E6, ix=True)],
+        [B("core", [0, 1], E5)],
+        [B("lite", [0, 1], E5)],
+        [B("slite", [0, 1], E2)]]})
+    P.append({"id": "num/ram/5seg", "cfg": cfg("num", ixmode="reopen"), "root": root5(), "levels": [
+        [B("full", [0, 1], E6, ix=True)],
+        [B("lite", [0, 1], E5)]]})
+    P.append({"id": "two/ram/deep", "cfg": cfg("two"), "root": [], "levels": [
+        [B("full", [0, 1, 2], E6, ix=True)],
+        [B("full", [0, 1], E5)],
+        [B("core", [0, 1], E5)],
+        [B("slite", [0, 1], E2)]]})
+    P.append({"id": "two/ram/5seg", "cfg": cfg("two", ixmode="reopen"), "root": root5_two(), "levels": [
+        [B("full", [0, 1], E5, ix=True), B("core", [2], MRG)],
+        [B("core", [0, 1], E5)]]})
+    slevel = [B("schema", ends=E5), B("slite", [0, 1], E3)]
+    P.append({"id": "id/ram/schema/created", "cfg": cfg("id"), "root": [],
+              "recheck_reopened": True, "levels": [slevel] * 5})
+    P.append({"id": "id/ram/schema/reopen", "cfg": cfg("id", ixmode="reopen"), "root": [],
+              "levels": [slevel] * 4})
+    P.append({"id": "id/file/deep", "cfg": file_cfg, "root": [], "image": True, "levels": [
+        [B("core", [0, 1, 2], E5)],
+        [B("core", [0, 1], E5)],
+        [B("lite", [0, 1], E3)],
+        [B("slite", [0, 1], E2)]]})
+    P.append({"id": "id/file_nommap_loose/deep", "cfg": loose_cfg, "root": [], "image": True, "levels": [
+        [B("core", [0, 1], E5), B("lite", [2], E3)],
+        [B("lite", [0, 1], E5)],
+        [B("lite", [0, 1], E3)],
+        [B("slite", [0, 1], E3)]]})
+    P.append({"id": "two/file/5seg", "cfg": cfg("two", storage="file"), "root": root5_two(), "image": True,
+              "levels": [
+        [B("core", [0, 1], E5)],
+        [B("lite", [0, 1], E5)]]})
     return P
 
 
